@@ -150,6 +150,7 @@ class Net(object):
         self.policy = policy
         self.now = now
         self.buf = []              # receive buffer of the (single) socket
+        self.buf_arrival = []      # ... and the time each of its datagrams arrived
         self.log = []              # ["send", tx, bytes, now] | ["select", timeout] | ["recv", bytes] | ["sleep", dt]
         self.events = []           # consumed events: [[datagram bytes...], clock after]
         self.ntx = 0
@@ -198,6 +199,9 @@ class Net(object):
         datagrams, after = self.policy.on_select(self, k, timeout)
         self.events.append([list(datagrams), after])
         self.buf.extend(datagrams)
+        arrivals = getattr(self.policy, "last_arrivals", None)        # when each reached the socket
+        self.buf_arrival.extend(arrivals if arrivals is not None and len(arrivals) == len(datagrams)
+                                else [after] * len(datagrams))
         self.now = after
         return (list(r) if self.buf else []), [], []
 
@@ -206,6 +210,7 @@ class Net(object):
         if not self.buf:
             raise _BlockingIOError(11, "Resource temporarily unavailable")
         d = self.buf.pop(0)
+        self.buf_arrival.pop(0)
         self.log.append(["recv", d])
         return d[:n]
 
@@ -302,4 +307,5 @@ class FaultSim(object):
         due.sort(key=lambda p: (p[0], p[1]))
         for p in due:
             self.pending.remove(p)
+        self.last_arrivals = [p[0] for p in due]
         return [p[2] for p in due], after
